@@ -119,4 +119,3 @@ func devMain(args []string) {
 	fmt.Printf("solver time %.1fs, wall %.1fs\n", secs, time.Since(t0).Seconds())
 }
 
-func selftestMain(args []string) int { return 2 }
